@@ -48,6 +48,15 @@ impl Default for Opts {
     }
 }
 
+impl Opts {
+    /// Larger operations for the thorough tier.
+    pub fn thorough(mut self) -> Opts {
+        self.max_depth = 5;
+        self.budget = 45;
+        self
+    }
+}
+
 pub struct Case {
     pub schema_doc: Document,
     pub schema: RefSchema,
